@@ -79,6 +79,16 @@ func dotenvOutcome(m map[string]string, err error) map[string]any {
 }
 
 // realDotenv runs the two string/reader entry points; they must agree (ParseWithLookup only strips a BOM).
+func stripEntry(out map[string]any) map[string]any {
+	o := map[string]any{}
+	for k, v := range out {
+		if k != "entryDiffers" {
+			o[k] = v
+		}
+	}
+	return o
+}
+
 func realDotenv(src string, lookup map[string]string) map[string]any {
 	m, err := dotenv.UnmarshalWithLookup(src, lookupFn(lookup))
 	out := dotenvOutcome(m, err)
@@ -86,6 +96,24 @@ func realDotenv(src string, lookup map[string]string) map[string]any {
 		m2, err2 := dotenv.ParseWithLookup(strings.NewReader(src), lookupFn(lookup))
 		if out2 := dotenvOutcome(m2, err2); !reflect.DeepEqual(out, out2) {
 			out["entryDiffers"] = out2
+		}
+	}
+	if len(lookup) == 0 {
+		// round 5: the glue around the core — a nil LookupFn (replaced by noLookupFn inside parser.parse) through
+		// UnmarshalWithLookup, UnmarshalBytesWithLookup and dotenv.Parse must be the empty lookup of the model
+		m3, err3 := dotenv.UnmarshalWithLookup(src, nil)
+		if out3 := dotenvOutcome(m3, err3); !reflect.DeepEqual(stripEntry(out), out3) {
+			out["entryDiffers"] = map[string]any{"nilLookup": out3}
+		}
+		m4, err4 := dotenv.UnmarshalBytesWithLookup([]byte(src), nil)
+		if out4 := dotenvOutcome(m4, err4); !reflect.DeepEqual(stripEntry(out), out4) {
+			out["entryDiffers"] = map[string]any{"bytesNilLookup": out4}
+		}
+		if !strings.HasPrefix(src, "\uFEFF") {
+			m5, err5 := dotenv.Parse(strings.NewReader(src))
+			if out5 := dotenvOutcome(m5, err5); !reflect.DeepEqual(stripEntry(out), out5) {
+				out["entryDiffers"] = map[string]any{"Parse": out5}
+			}
 		}
 	}
 	return out
@@ -378,8 +406,8 @@ func init() {
 			json.Unmarshal(raw, &a)
 			return realDotenv(a.Src, a.Lookup)
 		},
-		DriverOp: "dotenv",
-		Judge: func(args, real, drv json.RawMessage) *core.Verdict {
+		DriverOp: "dotenvT", // round 5: the traced model (outcome + branch mask); `parseT_is_parse` says the outcome is `Dotenv.parse`
+		Judge: func(args, real, drvT json.RawMessage) *core.Verdict {
 			if v := core.CrashVerdict(real); v != nil {
 				return v
 			}
@@ -388,9 +416,14 @@ func init() {
 			if _, bad := r["entryDiffers"]; bad {
 				return core.Fail("entrypoints-differ", fmt.Sprintf("UnmarshalWithLookup and ParseWithLookup disagree: %s", real))
 			}
-			if !core.CanonEqual(real, drv) {
+			var t tracedOut
+			if err := json.Unmarshal(drvT, &t); err != nil || t.Out == nil {
+				return core.Disagree(fmt.Sprintf("no traced outcome from the driver: %s", drvT))
+			}
+			if !core.CanonEqual(real, t.Out) {
 				return core.Disagree("Dotenv.parse ≠ dotenv.UnmarshalWithLookup")
 			}
+			c18RecordBranches(t.Br)
 			return nil
 		},
 	})
@@ -557,6 +590,34 @@ func runC18(ctx *core.Ctx) {
 	c18Random(ctx)
 	c18Raw(ctx)
 	c18Files(ctx)
+	c18Octal(ctx)
+	c18Rename(ctx)
+	c18Coverage(ctx)
+}
+
+// round 5 (found by the branch histogram: no quick-tier correspondence input ever reached the accepted octal escape —
+// `\0` + three digits needs five tokens, the exhaustive bodies stop at four): every `\0` + ≤ 4 digits over
+// {0,1,3,7,8,9} between double quotes (accepted: three octal digits ≤ 255; kept: fewer digits, 8/9, > 255; a fourth
+// digit is ordinary text), and the three-digit forms between single quotes and unquoted (no escape processing there)
+func c18Octal(ctx *core.Ctx) {
+	digs := []string{"0", "1", "3", "7", "8", "9"}
+	var rec func(ds string, n int)
+	rec = func(ds string, n int) {
+		ctx.Count("model-octal-escape")
+		ctx.Add("dotenv", dotenvArgs{Src: "B=\"\\0" + ds + "\"\n", Lookup: c18Lookups[0]})
+		if len(ds) == 3 {
+			ctx.Add("dotenv", dotenvArgs{Src: "B='\\0" + ds + "'\n", Lookup: c18Lookups[0]})
+			ctx.Add("dotenv", dotenvArgs{Src: "A=x\nB=\\0" + ds + " # $A\n", Lookup: c18Lookups[0]})
+			ctx.Add("dotenv", dotenvArgs{Src: "A=x\nB=\"$A\\0" + ds + "${A}\\\\\"", Lookup: c18Lookups[1]})
+		}
+		if n == 0 {
+			return
+		}
+		for _, d := range digs {
+			rec(ds+d, n-1)
+		}
+	}
+	rec("", 4)
 }
 
 // 1. exhaustive small scope: every token string up to a length over two alphabets
